@@ -184,9 +184,19 @@ var (
 	onIter      func(store, prefix string)
 )
 
+// readFault (persistent until cleared): consulted by every Get; a non-nil result is returned as the error of that
+// read (injected storage read fault, e.g. an I/O error on one key).
+var readFault func(store, key string) error
+
+func SetReadFault(f func(store, key string) error) { hookMu.Lock(); readFault = f; hookMu.Unlock() }
+
 func SetBeforeWrite(f func(store string))    { hookMu.Lock(); beforeWrite = f; hookMu.Unlock() }
 func SetOnIter(f func(store, prefix string)) { hookMu.Lock(); onIter = f; hookMu.Unlock() }
-func ClearHooks()                            { hookMu.Lock(); beforeWrite, onIter = nil, nil; hookMu.Unlock() }
+func ClearHooks() {
+	hookMu.Lock()
+	beforeWrite, onIter, readFault = nil, nil, nil
+	hookMu.Unlock()
+}
 
 func (s *Store) commit(ops []Op) error {
 	hookMu.Lock()
@@ -225,6 +235,14 @@ func (d *db) Put(key, value []byte) error {
 }
 func (d *db) Delete(key []byte) error { return d.s.commit([]Op{{Del: true, Key: string(key)}}) }
 func (d *db) Get(key []byte) ([]byte, error) {
+	hookMu.Lock()
+	rf := readFault
+	hookMu.Unlock()
+	if rf != nil {
+		if err := rf(d.s.Path, string(key)); err != nil {
+			return nil, err
+		}
+	}
 	mu.Lock()
 	defer mu.Unlock()
 	v, ok := d.s.data[string(key)]
